@@ -418,6 +418,44 @@ func sprintf(fr *frame, format string, args []value) string {
 	for i, a := range args {
 		hs[i] = hostArg(fr, a)
 	}
+	// %T must print the target program's dynamic type, not the executor's
+	// representation: rewrite each %T into %s with the type name as operand.
+	if strings.Contains(format, "%T") {
+		var sb strings.Builder
+		arg := 0
+		for i := 0; i < len(format); i++ {
+			if format[i] != '%' {
+				sb.WriteByte(format[i])
+				continue
+			}
+			j := i + 1
+			for j < len(format) && strings.ContainsRune("+-# 0123456789.", rune(format[j])) {
+				j++
+			}
+			if j >= len(format) {
+				sb.WriteString(format[i:])
+				break
+			}
+			if format[j] == '%' {
+				sb.WriteString(format[i : j+1])
+				i = j
+				continue
+			}
+			if format[j] == 'T' && arg < len(args) {
+				name := "<nil>"
+				if itf, ok := args[arg].(iface); ok && itf.t != nil {
+					name = typeString(itf.t)
+				}
+				hs[arg] = name
+				sb.WriteString("%s")
+			} else {
+				sb.WriteString(format[i : j+1])
+			}
+			arg++
+			i = j
+		}
+		format = sb.String()
+	}
 	return fmt.Sprintf(format, hs...)
 }
 
